@@ -12,6 +12,11 @@
     daily_op <stat> <p> <ap8> <n> <doys…> <vals…>          DailyCollection._monthly_operation
     percentile <p> <vals…> | median | average | total | minmax <vals…>
     highest|lowest <count> <vals…>
+    hist <kind> <imm> <ap8> <dleap> <n> <moys|doys…> <nv> <vals…> | <op> | <op> …
+         one object, a history of operations (Model/GroupObj.lean); the answers of all steps joined by ` ;; `
+         ops: group day|month|mph · stat <interval> <stat> <p> · pct <p> · median · minmax · avg · total ·
+              highest <c> · lowest <c> · dts · twin day|month|mph · setvals N | setvals <k> <vals…> ·
+              setitem <i> <v> · cull <ts>
 
   Groups are printed as runs `a-b` of consecutive ids; dictionaries as all keys (in order) followed by
   the non-empty groups.
@@ -19,6 +24,7 @@
 import Ladybug.DrvCore
 import Ladybug.Model.Group
 import Ladybug.Model.Stats
+import Ladybug.Model.GroupObj
 
 open Drv Cal
 
@@ -127,8 +133,124 @@ def intervalResult (ap : AP) (iv : String) (op : Stats.Op)
         ((gMph ()).bind fun d => Grp.intervalOp d ap.monthsPerHour op.apply)
     | _ => "bad-op"
 
+
+/-! ### Histories on one object (Model/GroupObj.lean) -/
+
+def splitBar (toks : List String) : List (List String) :=
+  let rec go : List String → List String → List (List String) → List (List String)
+    | [], cur, acc => (cur.reverse :: acc).reverse
+    | t :: ts, cur, acc => if t = "|" then go ts [] (cur.reverse :: acc) else go ts (t :: cur) acc
+  go toks [] []
+
+def csvRats (l : List Rat) : String := ",".intercalate (l.map showRat)
+
+def showGroupsNat (d : Grp.Dict Nat Rat) : String :=
+  s!"ok nkeys {d.length} groups" ++ String.join ((d.filter (·.2 ≠ [])).map fun p => s!" {p.1}={csvRats p.2}")
+
+def showGroupsMph (d : Grp.Dict (Nat × Nat × Nat) Rat) : String :=
+  s!"ok nkeys {d.length} groups" ++
+    String.join ((d.filter (·.2 ≠ [])).map fun p => s!" {showKey3 p.1}={csvRats p.2}")
+
+def showRefusal : Grp.Refusal → String
+  | .assert => "err:assert"
+  | .index => "err:index"
+  | .attr => "err:attr"
+
+def showOut : Grp.Out → String
+  | .dictNat r => showRes showGroupsNat r
+  | .dictMph r => showRes showGroupsMph r
+  | .statNat ts r => showOp ts toString r
+  | .statMph ts r => showOp ts showKey3 r
+  | .num r => showRes (fun x => "ok " ++ showRat x) r
+  | .two r => showRes (fun x => s!"ok {showRat x.1} {showRat x.2}") r
+  | .hl r => showRes (fun x => "ok " ++ showRats x.1 ++ " | " ++ showNats x.2) r
+  | .stamps l =>
+    let ms := l.map DT.moy
+    s!"ok {ms.length} {ms.head?.getD 0} {ms.getLast?.getD 0} {ms.foldl (· + ·) 0}"
+  | .days l => s!"ok {l.length} {l.head?.getD 0} {l.getLast?.getD 0} {l.foldl (· + ·) 0}"
+  | .done => "ok"
+  | .refused e => showRefusal e
+  | .unsupported => "err:attr"
+
+def byTok? : String → Option Grp.By
+  | "day" => some .day
+  | "month" => some .month
+  | "mph" => some .mph
+  | _ => none
+
+def interval? : String → Option Grp.Interval
+  | "daily" => some .daily
+  | "monthly" => some .monthly
+  | "monthlyperhour" => some .monthlyPerHour
+  | _ => none
+
+def histOp? : List String → Option Grp.Op
+  | ["group", b] => (byTok? b).map fun b => .read (.group b)
+  | ["stat", iv, st, p] => do
+    let iv ← interval? iv
+    let op ← stat? st p
+    pure (.read (.stat iv op))
+  | ["pct", p] => (rat? p).map fun p => .read (.pct p)
+  | ["median"] => some (.read .median)
+  | ["minmax"] => some (.read .minmax)
+  | ["avg"] => some (.read .avg)
+  | ["total"] => some (.read .total)
+  | ["highest", c] => c.toInt?.map fun c => .read (.highest c)
+  | ["lowest", c] => c.toInt?.map fun c => .read (.lowest c)
+  | ["dts"] => some (.read .dts)
+  | ["twin", b] => (byTok? b).map fun b => .read (.twin b)
+  | ["setvals", "N"] => some (.mut (.setvals none))
+  | "setvals" :: _ :: vs => (vs.mapM rat?).map fun v => .mut (.setvals (some v))
+  | ["setitem", i, v] => do
+    let i ← i.toInt?
+    let v ← rat? v
+    pure (.mut (.setitem i v))
+  | ["cull", ts] => ts.toInt?.map fun ts => .mut (.cull ts)
+  | _ => none
+
+def histObj? (toks : List String) : Option (Except String Grp.Obj) :=
+  match toks with
+  | k :: im :: rest =>
+    match period? (rest.take 8), (rest.drop 8).head?.bind bool?, (rest.drop 9).head?.bind String.toNat? with
+    | some (.error e), _, _ => some (.error (showCalErr e))
+    | some (.ok ap), some dl, some n =>
+      let stampsT := (rest.drop 10).take n
+      let afterS := (rest.drop 10).drop n
+      match nats stampsT, afterS.head?.bind String.toNat?, bool? im with
+      | some st, some nv, some imm =>
+        match ((afterS.drop 1).take nv).mapM rat? with
+        | none => none
+        | some vals =>
+          match k with
+          | "cont" =>
+            if ¬ contOk ap vals.length then some (.error "err:assert")
+            else some (.ok (Grp.Pub.fresh { kind := .cont, imm := imm, ap := ap, vals := vals, stamps := [], doys := [] }))
+          | "disc" =>
+            match dts? dl st with
+            | none => none
+            | some ds =>
+              if ds.length ≠ vals.length ∨ ds.isEmpty then some (.error "err:assert")
+              else some (.ok (Grp.Pub.fresh { kind := .disc, imm := imm, ap := ap, vals := vals, stamps := ds, doys := [] }))
+          | "daily" =>
+            if st.length ≠ vals.length ∨ st.isEmpty then some (.error "err:assert")
+            else some (.ok (Grp.Pub.fresh { kind := .daily, imm := imm, ap := ap, vals := vals, stamps := [], doys := st }))
+          | _ => none
+      | _, _, _ => none
+    | _, _, _ => none
+  | _ => none
+
+def handleHist (toks : List String) : String :=
+  match splitBar toks with
+  | [] => "bad-op"
+  | head :: ops =>
+    match histObj? head, ops.mapM histOp? with
+    | some (.error e), _ => e
+    | some (.ok o), some ops => " ;; ".intercalate ((o.run ops).2.map showOut)
+    | _, _ => "bad-op"
+
 def handle (toks : List String) : String :=
   match toks with
+  | "hist" :: rest => handleHist rest
   | "cont_day" :: rest | "cont_month" :: rest | "cont_mph" :: rest =>
     match period? rest with
     | none => "bad-op"
